@@ -7,7 +7,7 @@ def destJson (d : Dest Nat) (calls : Nat) : Json :=
   Json.mkObj [("indices", Driver.nats d.indices), ("values", Driver.nats d.values), ("calls", toJson calls)]
 
 def runV (v : Variant) (sep delim : Nat) (spans idx vals : List Nat) (sc dc mult : Nat) : Json :=
-  match runBatches v sep delim spans idx vals sc (dc * mult) with
+  match applySpansConcatS v sep delim spans idx vals sc dc mult with
   | .ok st => Driver.okJson (destJson st.dest st.calls)
   | .error e => Driver.errJson e
 
